@@ -38,7 +38,7 @@ pub fn props(name: &str) -> &'static str {
         "index_panic_mismatch" | "index_panic_effect" => "C07",
         "clone_allocates" | "clone_not_shared" => "C08",
         "inline_alloc" | "ctor_alloc" => "C09",
-        "static_modified" | "static_alloc" => "C10",
+        "static_modified" | "static_alloc" | "static_clone_copied" => "C10",
         "cap_lt_len" | "with_capacity_small" | "reserve_small" | "within_cap_realloc" => "C11",
         "growth_bounds" => "C12",
         "shrink_text" | "shrink_grew" | "shrink_below" | "shrink_inexact" => "C13",
@@ -285,6 +285,22 @@ fn added_len(op: &Op) -> Option<usize> {
     }
 }
 
+/// Bytes appended by an op that runs to completion, iterator-driven appends included (`Extend<char>` first reserves
+/// its size hint): what "appending within the reported capacity" (C11) speaks about.  Not used for the growth bounds
+/// (C12): an iterator-driven append may grow several times.
+fn appended_len(op: &Op) -> Option<usize> {
+    match op {
+        Op::ExtendStrs { panic_at, pieces, .. } if *panic_at < 0 => Some(pieces.iter().map(|p| p.len()).sum()),
+        Op::ExtendChars { panic_at, chars, hint, .. } if *panic_at < 0 => {
+            Some(chars.iter().map(|c| c.len_utf8()).sum::<usize>().max(*hint))
+        }
+        Op::WriteFmt { err_at, panic_at, pieces, .. } if *err_at < 0 && *panic_at < 0 => {
+            Some(pieces.iter().map(|p| p.len()).sum())
+        }
+        _ => added_len(op),
+    }
+}
+
 fn hash_of<T: Hash + ?Sized>(v: &T) -> u64 {
     let mut h = std::collections::hash_map::DefaultHasher::new();
     v.hash(&mut h);
@@ -440,6 +456,13 @@ pub fn evaluate(cx: &StepCtx<'_>) -> Vec<MonFail> {
             } else if src.kind != Kind::Inline && copy.ptr != src.ptr {
                 out.push(mf("clone_not_shared", "copy and source have different as_ptr".to_string()));
             }
+            // C10: a clone of borrowed static text keeps borrowing the caller's bytes
+            if src.kind == Kind::Static && (copy.kind != Kind::Static || copy.ptr != src.ptr) {
+                out.push(mf(
+                    "static_clone_copied",
+                    format!("the source borrows static text but the copy is kind {} ({})", copy.kind.letter(), if copy.ptr == src.ptr { "same as_ptr" } else { "different as_ptr" }),
+                ));
+            }
             if src.kind == Kind::Heap && matches!(op, Op::Clone { .. }) {
                 let src_after = cx.after.get(j).and_then(|s| s.as_ref());
                 let want = src.rc.map(|r| r + 1);
@@ -540,9 +563,9 @@ pub fn evaluate(cx: &StepCtx<'_>) -> Vec<MonFail> {
             out.push(mf("reserve_small", format!("after reserve the slot is kind {} refcount {:?}: not exclusively owned", a.kind.letter(), a.rc)));
         }
     }
-    if let (Some(add), true, Some(b), Some(a)) = (added_len(op), ok, before_t, after_t) {
+    if let (Some(add), true, Some(b), Some(a)) = (appended_len(op), ok, before_t, after_t) {
         let exclusive = b.kind == Kind::Inline || (b.kind == Kind::Heap && b.rc == Some(1));
-        if exclusive && b.len + add <= b.cap {
+        if exclusive && b.len.checked_add(add).map_or(false, |need| need <= b.cap) {
             let moved = match b.kind {
                 Kind::Inline => a.kind != Kind::Inline,
                 _ => a.kind != Kind::Heap || a.ptr != b.ptr,
@@ -615,6 +638,63 @@ pub fn evaluate(cx: &StepCtx<'_>) -> Vec<MonFail> {
     out
 }
 
+macro_rules! spec_cmp {
+    ($a:expr, $s:expr, $($spec:literal),* $(,)?) => {{
+        let mut r: Option<&'static str> = None;
+        $( if r.is_none() && format!($spec, $a) != format!($spec, $s) { r = Some($spec); } )*
+        r
+    }};
+}
+fn fmt_specs_differ(a: &LeanString, sa: &str) -> Option<&'static str> {
+    if let Some(x) = spec_cmp!(a, sa, "{:.0}", "{:.1}", "{:.3}", "{:.16}", "{:.17}", "{:1}", "{:7}", "{:24}", "{:<20}", "{:>20}", "{:^21}",
+                               "{:*^19.5}", "{:-<8.2}", "{:#>30.29}", "{:?}", "{:#?}", "{:12?}", "{:<40?}", "{:.2?}") {
+        return Some(x);
+    }
+    let (w, p) = (sa.chars().count() + 2, sa.chars().count().saturating_sub(1));
+    if format!("{:w$.p$}", a, w = w, p = p) != format!("{:w$.p$}", sa, w = w, p = p) {
+        return Some("{:w$.p$} (w = chars + 2, p = chars - 1)");
+    }
+    if format!("{:.*}", p, a) != format!("{:.*}", p, sa) {
+        return Some("{:.*} (chars - 1)");
+    }
+    None
+}
+fn views_differ(a: &LeanString, sa: &str) -> Option<&'static str> {
+    use std::borrow::Borrow;
+    use std::collections::{BTreeMap, HashMap};
+    let r1: &str = a.as_ref();
+    let r2: &[u8] = a.as_ref();
+    let r3: &str = a.borrow();
+    let r4: &str = &**a;
+    if r1 != sa { return Some("AsRef<str>"); }
+    if r2 != sa.as_bytes() { return Some("AsRef<[u8]>"); }
+    if r3 != sa { return Some("Borrow<str>"); }
+    if r4 != sa { return Some("Deref"); }
+    #[cfg(feature = "ls-std")]
+    {
+        let r5: &std::ffi::OsStr = a.as_ref();
+        if r5 != std::ffi::OsStr::new(sa) { return Some("AsRef<OsStr>"); }
+    }
+    if a.to_string() != sa { return Some("to_string"); }
+    if String::from(a) != sa { return Some("String::from(&LeanString)"); }
+    if String::from(a.clone()) != sa { return Some("String::from(LeanString)"); }
+    if a.len() != sa.len() || a.is_empty() != sa.is_empty() { return Some("len/is_empty"); }
+    let mut st = String::from("ab");
+    st.extend([a.clone(), a.clone()]);
+    if st != format!("ab{sa}{sa}") { return Some("Extend<LeanString> for String"); }
+    if !LeanString::default().is_empty() || LeanString::default() != *"" { return Some("Default"); }
+    // a LeanString key is found by &str (Borrow must agree with Hash / Eq / Ord)
+    let mut hm: HashMap<LeanString, u8> = HashMap::new();
+    hm.insert(a.clone(), 1);
+    if hm.get(sa) != Some(&1) { return Some("HashMap lookup by &str"); }
+    let mut bm: BTreeMap<LeanString, u8> = BTreeMap::new();
+    bm.insert(a.clone(), 1);
+    bm.insert(LeanString::from("m"), 2);
+    bm.insert(LeanString::new(), 3);
+    if bm.get(sa) != Some(&1) && sa != "m" && !sa.is_empty() { return Some("BTreeMap lookup by &str"); }
+    None
+}
+
 fn eq_monitor(cx: &StepCtx<'_>, out: &mut Vec<MonFail>) {
     // Only slots whose bytes are valid UTF-8 can be compared through `str` safely.
     let live: Vec<(usize, &LeanString)> = cx
@@ -631,6 +711,13 @@ fn eq_monitor(cx: &StepCtx<'_>, out: &mut Vec<MonFail>) {
         }
         if format!("{a}") != format!("{sa}") || format!("{a:?}") != format!("{sa:?}") {
             out.push(mf("eq_mismatch", format!("slot {i}: Display/Debug differs from str")));
+        }
+        // the same under format specifications (width, precision, fill, alignment, alternate), and through every view
+        if let Some(which) = fmt_specs_differ(a, sa) {
+            out.push(mf("eq_mismatch", format!("slot {i}: formatting with `{which}` differs from str")));
+        }
+        if let Some(which) = views_differ(a, sa) {
+            out.push(mf("eq_mismatch", format!("slot {i}: view `{which}` differs from str")));
         }
         for &(j, b) in &live {
             let sb: &str = b.as_str();
